@@ -180,7 +180,10 @@ func c17() {
 		hists = append(hists, hist{kind: "tool-exits-1-long-name", k: 20000, k2: nl})
 	}
 	hists = append(hists, hist{kind: "tool-exits-1-before-output"}, hist{kind: "tool-exits-1-after-all-output"}, hist{kind: "tool-absent"}, hist{kind: "control-no-fault"},
-		hist{kind: "binary-replaced"}, hist{kind: "binary-replaced-after-interrupted-run", k: 8192})
+		hist{kind: "binary-replaced"}, hist{kind: "binary-replaced-after-interrupted-run", k: 8192},
+		// the new binary at the path is older than the cache (moved into place, copied with its time stamp, a rollback)
+		hist{kind: "binary-replaced-by-an-older-file", k: 3600}, hist{kind: "binary-replaced-by-an-older-file", k: 1}, hist{kind: "binary-replaced-by-an-older-file", k: 86400 * 400},
+		hist{kind: "binary-replaced-by-a-file-of-the-same-time", k: 0}, hist{kind: "binary-replaced-by-a-file-from-the-future", k: -86400})
 	for k := 1; k <= run.N(24, 80); k++ {
 		hists = append(hists, hist{kind: "enospc-at-write", k: k})
 	}
@@ -409,6 +412,21 @@ func c17() {
 			copyFile(target, fx.binB)
 			wantProfile, finalListing = coldB, fx.listB
 			steps = append(steps, "binary at the same path replaced by B")
+		case "binary-replaced-by-an-older-file", "binary-replaced-by-a-file-of-the-same-time", "binary-replaced-by-a-file-from-the-future":
+			old := time.Now().Add(-2 * time.Hour)
+			os.Chtimes(target, old, old) // binary A has some age
+			step(vlib.ToolRun{Argv: argv(target), FakeMode: "emit", Listing: fx.listA}, "run 1: normal, binary A")
+			// B is prepared next to the path and moved over it: its time stamp is what it was given
+			tmpB := target + ".new"
+			copyFile(tmpB, fx.binB)
+			stamp := old
+			if h.kind != "binary-replaced-by-a-file-of-the-same-time" {
+				stamp = time.Now().Add(-time.Duration(h.k) * time.Second)
+			}
+			os.Chtimes(tmpB, stamp, stamp)
+			os.Rename(tmpB, target)
+			wantProfile, finalListing = coldB, fx.listB
+			steps = append(steps, fmt.Sprintf("binary at the same path replaced (rename) by B, whose modification time is %s", stamp.Format(time.RFC3339)))
 		case "binary-replaced-after-interrupted-run":
 			res := step(vlib.ToolRun{Argv: argv(target), FakeMode: "block", Listing: fx.listA, K: h.k, KillAfter: true}, "run 1: binary A, interrupted")
 			if res == nil || !res.Killed {
